@@ -76,6 +76,33 @@ func genC07(t *rapid.T) *Case {
 	return c
 }
 
+// genC07Bounded: the cancellation falls while the calling end's direction of a bounded carrier is full but nobody is parked in
+// it: the victim's call is a non-streaming Invoke (or a client stream) whose request exceeds the window and whose handler does
+// not read, so that the caller waits for credit *in the library* right after its last admissible chunk went into the pipe.
+// Ending the RPC at the caller must then not involve the carrier (whichever goroutine - the caller's own, through the failed
+// send, or the context watcher - gets to finish the stream).
+func genC07Bounded(t *rapid.T) *Case {
+	c := genC07(t)
+	c.Prop = "c07_bounded"
+	c.Cfg.Cap = rapid.SampledFrom([]int{1, 1, 2}).Draw(t, "cap_bounded")
+	if c.Cfg.ClientFC != "on" || c.Cfg.ServerFC != "on" {
+		c.Cfg.ClientFC, c.Cfg.ServerFC = "on", "on"
+	}
+	c.Yields = nil
+	vi := victimOf(c)
+	v := &c.RPCs[vi]
+	v.Shape = rapid.SampledFrom([]string{"unary", "unary", "cstream"}).Draw(t, "bv.shape")
+	v.Via = ""
+	v.Req = []int{rapid.SampledFrom([]int{70000, 100000, 150000}).Draw(t, "bv.req")}
+	v.Resp = []int{5}
+	v.HOps = []MDOp{{Kind: "settrl", MD: map[string][]string{"victim-trailer": {"1", "2"}}}}
+	v.HWaitCtx, v.StallRecv, v.CallHeader, v.Code, v.Msg = false, false, 0, 0, ""
+	v.HStallRecv = true
+	c.Events[0].AtStep = false
+	c.Events[0].After = rapid.IntRange(2, 14).Draw(t, "bk")
+	return c
+}
+
 // expandC07: the cancel (and the deadline) at every frame boundary of the fault-free run.
 func expandC07(c *Case, tr *Trace) []*Case {
 	delivered := 0
@@ -174,7 +201,15 @@ func monC07(c *Case, tr *Trace) []Violation {
 			parkArmed = true
 		}
 	}
-	if c.Cfg.Cap == 0 && !parkArmed {
+	// (nor, on a bounded carrier, when some SendMsg of the calling end was parked inside the carrier at that moment: that
+	// operation is governed by the carrier stream's context, and others may be queued behind it on the tunnel's send mutex.
+	// With nothing parked there, a full pipe is no excuse: ending the RPC at the caller must not involve the carrier at all.)
+	callerDir := C2S
+	if c.Cfg.Dir == "rev" {
+		callerDir = S2C
+	}
+	carrierExcuse := c.Cfg.Cap != 0 && (er.CapBlocked[callerDir] || (c.Cfg.Dir != "fwd" && c.Cfg.Dir != "rev"))
+	if !carrierExcuse && !parkArmed {
 		for _, o := range tr.Ops {
 			if o.RPC != vi || o.Side != "caller" || o.Pending() {
 				continue
